@@ -18,6 +18,8 @@ def build_cases(tier, seed):
     n_rand = 300 if tier == "quick" else 3000
     for i in range(n_rand):
         cases.append(progs.random_case(rng, i, rng.choice(["local", "local", "local_lru", "memory"])))
+    # code in a __main__ script / in IPython cells, incl. unchanged redefinition in later cells
+    cases += progs.location_cases(tier, seed)
     return cases
 
 
